@@ -183,8 +183,14 @@ def build_tls(rng, L, base):
     cbs = [c if c else 1 for c in cbs]
     arr = b"".join(c.to_bytes(ps, "little") for c in cbs)
     r = rng.random()
+    creg = L.rdata
     if r < 0.12:
         cpos = L.rdata.tail(arr + (1).to_bytes(ps, "little"), ps)                  # no terminator before the section ends
+    elif r < 0.24:
+        cpos = L.rdata.tail(arr + bytes(ps), ps)        # the zero terminator is the LAST slot of the section's raw data (file views)
+    elif r < 0.34:
+        creg = L.data
+        cpos = L.data.tail(arr + bytes(ps), ps)         # … and of the last section, i.e. of the mapped image (mapped views)
     else:
         cpos = L.rdata.alloc(arr + bytes(ps), ps, 4 if (bits == 64 and rng.random() < 0.05) else 0)
     if tpos is None or ipos is None or cpos is None:
@@ -192,7 +198,7 @@ def build_tls(rng, L, base):
     start = (base + L.data.rva(tpos)) & M
     end = (start + len(tmpl)) & M
     index = (base + L.data.rva(ipos)) & M
-    cbva = (base + L.rdata.rva(cpos)) & M
+    cbva = (base + creg.rva(cpos)) & M
     r = rng.random()
     if r < 0.05:
         start, end = end + 1, start                       # End < Start
